@@ -154,8 +154,14 @@ def cases(tier):
                     if square and (dim == 2 or tier == "thorough"):
                         out.append(_cc(api, "fit", "same", shape, "scalar", param, {"type": "turn"}, tier))
                 out.append(_cc("CT", "fit", "fine", shape, "scalar", param, {"type": "shift", "k0": None, "range": "unit"}, tier))
-                if tier == "thorough" and param != "coord":  # isometry fit: voxel-type points are converted to centre coordinates
-                    out.append(_cc("CT", "fit-isometry", "same", shape, "scalar", param, {"type": "shift", "k0": None, "range": "edge"}, tier))
+                if param != "coord":  # isometry fit: voxel-type points are converted to centre coordinates
+                    if tier == "thorough":
+                        out.append(_cc("CT", "fit-isometry", "same", shape, "scalar", param, {"type": "shift", "k0": None, "range": "edge"}, tier))
+                    # ... of the source system for the source points and of the DESTINATION system for the
+                    # destination points: destination systems with another origin / shape / voxel size
+                    # (same voxel size: pad / crop - with another voxel size the pairs are not related by an isometry)
+                    for sysv in ("pad", "crop"):
+                        out.append(_cc("CT", "fit-isometry", sysv, shape, "scalar", param, {"type": "shift", "k0": None, "range": "unit"}, tier))
     # ---- RotationCorrection
     if INCLUDE_ROTATION_CORRECTION:
         for shape in [(3, 3), (4, 4), (5, 5), (3, 3, 3)] + ([(4, 4, 4)] if tier == "thorough" else []):
@@ -657,8 +663,11 @@ def run_corr(case, r):
             else:
                 corr = darsia.CoordinateTransformation(cs_src, cs_dst, ps, pd, fit_options=opts)
                 T = corr.affine_correction.transformation
-            if build == "fit-isometry":
+            if build == "fit-isometry" and sysv == "same":
                 eff_param = "coord"  # documented: the isometry fit operates on coordinates of the voxel centres
+            # with another destination system (same voxel size) source points are converted with the
+            # source system and destination points with the destination system, so voxel p -> voxel p + k
+            # still means: destination voxel j shows source voxel j - k (reference in index terms)
         else:
             if api == "TC":
                 T = darsia.AffineTransformation(dim)
@@ -701,7 +710,7 @@ def run_corr(case, r):
 
         # ---- fitted maps: is the premise (the map IS the intended one) met?  Judged on the forward map only:
         # f_fit(f_exact^-1(x)) = x at every destination voxel centre (index), to 1/4 voxel.
-        if buildc == "fit":
+        if buildc == "fit" and not (build == "fit-isometry" and sysv != "same"):
             Mf = np.array(M_eff, dtype=float)
             te = np.array([float(x) for x in t_eff])
             if eff_param == "coord":
